@@ -1,4 +1,4 @@
-import ShellOp.Proofs.WorkerSys
+import ShellOp.Proofs.WorkerC17
 import ShellOp.Generated.Facts
 /-!
 # C17 — shutdown stops the queues cleanly
@@ -12,38 +12,6 @@ of the wait loop); the witness at the end is about the unrepaired code.
 namespace ShellOp.Worker.C17
 
 open ShellOp.Worker
-
-/-- what the log predicates say about a queue, whatever state it is in -/
-theorem log_facts (s : State) (inv : Inv s) (q : QName) :
-    cleanStop q s.log = true ∧ promptExit q s.log = true ∧ exitFinal q s.log = true := by
-  have hquiet : quiet q s.log = true →
-      cleanStop q s.log = true ∧ promptExit q s.log = true ∧ exitFinal q s.log = true := by
-    intro hq
-    obtain ⟨_, _, _, i4, i5, _, _, i8, _⟩ := quiet_facts q s.log hq
-    simp [cleanStop, promptExit, i4, i5, i8]
-  cases hqs : s.qs q with
-  | none => exact hquiet (inv.absent q hqs)
-  | some qs =>
-    have hQ := inv.queues q qs hqs
-    unfold QInv at hQ
-    split at hQ
-    · exact hquiet hQ
-    · obtain ⟨_, _, _, _, hs, ha, _, hp, _, _, hf⟩ := hQ
-      refine ⟨?_, ?_, hf⟩
-      · simp only [cleanStop, hs]
-        cases hd : s.cancelled with
-        | false => simp
-        | true =>
-          obtain ⟨a1, a2⟩ := ha hd
-          simp [a1]
-          by_cases h0 : startsAfterStop q s.log = 0
-          · exact Or.inl h0
-          · exact Or.inr (a2 (by omega))
-      · simp only [promptExit, hs]
-        cases hd : s.cancelled with
-        | false => simp
-        | true => simp [hp hd]
-    · exact absurd hQ (by simp)
 
 /-- **C17.1 at_most_one_more.** For every schedule and every queue: after the stop request the queue
 starts at most one more task, and it starts one only if its worker had already picked it, i.e. had
@@ -106,51 +74,6 @@ theorem progress_after_stop (cfg : Cfg) (q : QName) (qs : QState) (pc : Pc)
 
 example : dist (.running 7) = 2 ∧ dist (.handled 7 {}) = 1 := ⟨rfl, rfl⟩
 
-theorem exited_append (q : QName) (new old : List Ev) (h : exited q old = true) :
-    exited q (new ++ old) = true := by
-  induction new with
-  | nil => simpa using h
-  | cons e rest ih => cases e <;> simp_all [exited]
-
-theorem quiet_after_exit (q : QName) (new old : List Ev) (hf : exitFinal q (new ++ old) = true)
-    (hx : exited q old = true) : ∀ e ∈ new, e.ofWorker q = false := by
-  induction new with
-  | nil => intro e he; simp at he
-  | cons e rest ih =>
-    simp [exitFinal] at hf
-    obtain ⟨h1, h2⟩ := hf
-    have hx' := exited_append q rest old hx
-    intro e' he'
-    simp at he'
-    rcases he' with rfl | he'
-    · rcases h1 with h1 | h1
-      · exact h1
-      · rw [hx'] at h1; simp at h1
-    · exact ih h2 e' he'
-
-theorem starts_of_quiet (q : QName) (new old : List Ev) (h : ∀ e ∈ new, e.ofWorker q = false) :
-    starts q (new ++ old) = starts q old := by
-  induction new with
-  | nil => rfl
-  | cons e rest ih =>
-    have he := h e (by simp)
-    have := ih (fun e he => h e (by simp [he]))
-    cases e <;> simp_all [starts, Ev.ofWorker]
-
-theorem run_log (cfg : Cfg) (ls : List Label) : ∀ (s s' : State), run cfg s ls = some s' →
-    ∃ new, s'.log = new ++ s.log := by
-  induction ls with
-  | nil => intro s s' h; simp [run] at h; subst h; exact ⟨[], rfl⟩
-  | cons l rest ih =>
-    intro s s' h
-    simp only [run] at h
-    split at h
-    · simp at h
-    · rename_i s1 hs1
-      obtain ⟨n1, h1⟩ := step_log cfg s s1 l hs1
-      obtain ⟨n2, h2⟩ := ih s1 s' h
-      exact ⟨n2 ++ n1, by rw [h2, h1]; simp⟩
-
 /-- **C17.3 no_execution_from_late_events.** Once the worker of a queue has exited, nothing that
 happens later — events and ticks delivered by the consumer, further Start() calls, anything — makes
 that queue execute a task again. (For a worker that has not exited yet, `at_most_one_more` bounds what
@@ -165,20 +88,6 @@ theorem no_execution_from_late_events (cfg : Cfg) (hfix : cfg.fix = true) (ls ls
   have hf := (log_facts s' inv' q).2.2
   rw [hn] at hf ⊢
   exact starts_of_quiet q new s.log (quiet_after_exit q new s.log hf hx)
-
-theorem deliverAll_flags (s : State) (ts : List (QName × Queue.Id)) :
-    (deliverAll s ts).cronRunning = s.cronRunning ∧ (deliverAll s ts).kubePaused = s.kubePaused ∧
-    (deliverAll s ts).cancelled = s.cancelled := by
-  unfold deliverAll
-  induction ts generalizing s with
-  | nil => simp
-  | cons x rest ih =>
-    simp only [List.foldl_cons]
-    have := ih (deliver1 s x)
-    have h1 : (deliver1 s x).cronRunning = s.cronRunning ∧ (deliver1 s x).kubePaused = s.kubePaused ∧
-        (deliver1 s x).cancelled = s.cancelled := by
-      unfold deliver1; split <;> simp
-    simp_all
 
 /-- **C17.3, sources.** After `ScheduleManager.Stop()` has taken effect (its goroutine has stopped the
 cron) no schedule tick reaches the consumer; after `PauseHandleEvents()` no cluster event does; after
@@ -207,6 +116,28 @@ theorem shutdown_sequence (cfg : Cfg) (s s' : State)
   · simp at h
   · rename_i s1 hs1
     split at hs1 <;> simp at hs1 <;> subst hs1 <;> simp at h <;> subst h <;> simp_all
+
+/-- **C17, queue status.** In every schedule: when every queue of the set shows Status "stop" — the
+condition on which `WaitStopWithTimeout` returns before its timeout — every queue's worker goroutine has
+returned (and no queue is without a worker); conversely a worker that has returned shows "stop". -/
+theorem waitStop_sound (cfg : Cfg) (hfix : cfg.fix = true) (ls : List Label) (hs : SingleStarter ls)
+    (s : State) (h : run cfg init ls = some s) (hall : allStopped s = true)
+    (q : QName) (hq : q ∈ s.names) (qs : QState) (hqs : s.qs q = some qs) :
+    qs.workers = [.stopped] := by
+  have inv := run_inv cfg hfix ls hs init s init_inv h
+  have sinv := run_sinv cfg ls init s init_sinv h
+  have hst : qs.status = .stop := by
+    unfold allStopped at hall
+    have := List.all_eq_true.mp hall q hq
+    simp [hqs] at this
+    exact this
+  have hlen := QInv_len _ _ _ _ (inv.queues q qs hqs)
+  have hok := sinv.status q qs hqs
+  unfold StatusOk at hok
+  match hw : qs.workers with
+  | [] => rw [hw] at hok; exact absurd hst hok
+  | [pc] => rw [hw] at hok; simp at hok; rw [hok.1.mp hst]
+  | a :: b :: rest => rw [hw] at hlen; simp at hlen
 
 /-- **C17.3, cluster events (tie T1).** `handleWatchEvent` begins with `if ei.stopped { … return }`: once
 `PauseHandleEvents` has set the flag of an informer, its watch events produce nothing (the model's
